@@ -10,6 +10,7 @@ CONSTANTS
   TypeOf <- MCTypeOf
   RootTypes <- MCRoot
   Edits <- MCEditsDev
+  EncToks <- MCEncNone
   HelperToks <- MCHelpers
   ImportToks <- MCImports
   CmtToks <- MCCmt
